@@ -127,6 +127,13 @@ def structural():
         out.append((f"ret2{tn}", A.prog([], [A.func("f0", [("p0", t)], t, A.block([A.ret(B("+", x, one)), A.ret(x)]), True)])))
         out.append((f"ret3{tn}", A.prog([], [A.func("f0", [("p0", t)], t, A.block([A.if_(B(">", x, one), A.block([A.ret(one), A.ret(x)]), A.block([A.ret(x)])), A.ret(B("*", x, one))]), True)])))
         out.append((f"retloop{tn}", A.prog([], [A.func("f0", [("p0", t)], t, A.block([A.decl("i", INT, L(0)), A.while_(B("<", V("i"), L(3)), A.block([A.if_(B(">", x, one), A.block([A.ret(x)])), A.estmt(A.asg(V("i"), B("+", V("i"), L(1))))])), A.ret(one)]), True)])))
+    # one literal value used as an int and, converted, as a float in the same function (constants are shared per function)
+    for c in (0, 2, 3, 7, 64):
+        pf, pi = V("p0"), V("p1")
+        for nm, e in (("cmp", B("+", B("<", pf, L(c)), B("<", pi, L(c)))), ("ari", B("+", B("*", pi, L(c)), B(">", pf, L(c)))), ("rev", B("+", B("<", L(c), pi), B("<", pf, L(c)))),
+                      ("flt", B("+", B("+", pf, L(c)), B("<", pi, L(c))))):
+            rt = FLOAT if nm == "flt" else INT
+            out.append((f"shared{nm}{c}", A.prog([], [A.func("f0", [("p0", FLOAT), ("p1", INT)], rt, A.block([A.ret(e)]), True)])))
     for n, e in [(0, 0), (1, 0), (1, 1), (3, 2), (255, 3), (1, 10), (16777215, 0)]:
         out.append((f"fc{n}_{e}", A.prog([], [A.func("f0", [("p0", FLOAT)], FLOAT, A.block([A.ret(B("+", V("p0"), A.lit_f(n, e)))]), True)])))
     return out
